@@ -22,7 +22,7 @@ from puresnmp.adt import (
     V3Flags,
 )
 from puresnmp.credentials import V3, Credentials
-from puresnmp.exc import SnmpError
+from puresnmp.exc import ErrorResponse, SnmpError
 from puresnmp.pdu import GetRequest, PDUContent, Report
 from puresnmp.plugins.security import SecurityModel
 from puresnmp.transport import MESSAGE_MAX_SIZE
@@ -550,11 +550,19 @@ def validate_usm_message(message: PlainMessage) -> None:
 
     :raises SnmpError: If an error was found
     """
-    pdu = message.scoped_pdu.data.value
     if not isinstance(message.scoped_pdu.data, Report):
         # The usmStats counters are ordinary readable objects. They only
         # indicate an error when they arrive in a Report PDU.
         return
+    try:
+        pdu = message.scoped_pdu.data.value
+    except ErrorResponse as exc:
+        # Reports may arrive unauthenticated. Their error-status must not be
+        # interpreted like the error-status of a response (f.ex. "noSuchName"
+        # silently ends a walk).
+        raise SnmpError(
+            "Unexpected report received from remote device"
+        ) from exc
     errors = {
         ObjectIdentifier(
             "1.3.6.1.6.3.15.1.1.1.0"
